@@ -117,10 +117,9 @@ func NewBr(target *Block) *TermBr {
 
 // Succs returns the successor basic blocks of the terminator.
 func (term *TermBr) Succs() []*Block {
-	// Cache successors if not present.
-	if term.Successors == nil {
-		term.Successors = []*Block{term.Target.(*Block)}
-	}
+	// Note, the successors are recomputed on each call, since the targets may
+	// have been updated through Operands.
+	updateSuccs(&term.Successors, []*Block{term.Target.(*Block)})
 	return term.Successors
 }
 
@@ -167,10 +166,9 @@ func NewCondBr(cond value.Value, targetTrue, targetFalse *Block) *TermCondBr {
 
 // Succs returns the successor basic blocks of the terminator.
 func (term *TermCondBr) Succs() []*Block {
-	// Cache successors if not present.
-	if term.Successors == nil {
-		term.Successors = []*Block{term.TargetTrue.(*Block), term.TargetFalse.(*Block)}
-	}
+	// Note, the successors are recomputed on each call, since the targets may
+	// have been updated through Operands.
+	updateSuccs(&term.Successors, []*Block{term.TargetTrue.(*Block), term.TargetFalse.(*Block)})
 	return term.Successors
 }
 
@@ -217,15 +215,14 @@ func NewSwitch(x value.Value, targetDefault *Block, cases ...*Case) *TermSwitch 
 
 // Succs returns the successor basic blocks of the terminator.
 func (term *TermSwitch) Succs() []*Block {
-	// Cache successors if not present.
-	if term.Successors == nil {
-		succs := make([]*Block, 0, 1+len(term.Cases))
-		succs = append(succs, term.TargetDefault.(*Block))
-		for _, c := range term.Cases {
-			succs = append(succs, c.Target.(*Block))
-		}
-		term.Successors = succs
+	// Note, the successors are recomputed on each call, since the targets may
+	// have been updated through Operands.
+	succs := make([]*Block, 0, 1+len(term.Cases))
+	succs = append(succs, term.TargetDefault.(*Block))
+	for _, c := range term.Cases {
+		succs = append(succs, c.Target.(*Block))
 	}
+	updateSuccs(&term.Successors, succs)
 	return term.Successors
 }
 
@@ -309,13 +306,15 @@ func NewIndirectBr(addr value.Value, validTargets ...*Block) *TermIndirectBr {
 
 // Succs returns the successor basic blocks of the terminator.
 func (term *TermIndirectBr) Succs() []*Block {
-	// Cache successors if not present.
-	if term.Successors == nil {
-		// convert ValidTargets slice to []*ir.Block.
-		for _, target := range term.ValidTargets {
-			term.Successors = append(term.Successors, target.(*Block))
-		}
+	// Note, the successors are recomputed on each call, since the targets may
+	// have been updated through Operands.
+	//
+	// convert ValidTargets slice to []*ir.Block.
+	var succs []*Block
+	for _, target := range term.ValidTargets {
+		succs = append(succs, target.(*Block))
 	}
+	updateSuccs(&term.Successors, succs)
 	return term.Successors
 }
 
@@ -420,10 +419,9 @@ func (term *TermInvoke) Type() types.Type {
 
 // Succs returns the successor basic blocks of the terminator.
 func (term *TermInvoke) Succs() []*Block {
-	// Cache successors if not present.
-	if term.Successors == nil {
-		term.Successors = []*Block{term.NormalRetTarget.(*Block), term.ExceptionRetTarget.(*Block)}
-	}
+	// Note, the successors are recomputed on each call, since the targets may
+	// have been updated through Operands.
+	updateSuccs(&term.Successors, []*Block{term.NormalRetTarget.(*Block), term.ExceptionRetTarget.(*Block)})
 	return term.Successors
 }
 
@@ -589,14 +587,14 @@ func (term *TermCallBr) Type() types.Type {
 
 // Succs returns the successor basic blocks of the terminator.
 func (term *TermCallBr) Succs() []*Block {
-	// Cache successors if not present.
-	if term.Successors == nil {
-		term.Successors = []*Block{term.NormalRetTarget.(*Block)}
-		// Convert OtherRetTargets slice to []*ir.Block.
-		for _, otherRetTarget := range term.OtherRetTargets {
-			term.Successors = append(term.Successors, otherRetTarget.(*Block))
-		}
+	// Note, the successors are recomputed on each call, since the targets may
+	// have been updated through Operands.
+	succs := []*Block{term.NormalRetTarget.(*Block)}
+	// Convert OtherRetTargets slice to []*ir.Block.
+	for _, otherRetTarget := range term.OtherRetTargets {
+		succs = append(succs, otherRetTarget.(*Block))
 	}
+	updateSuccs(&term.Successors, succs)
 	return term.Successors
 }
 
@@ -790,16 +788,18 @@ func (term *TermCatchSwitch) Type() types.Type {
 
 // Succs returns the successor basic blocks of the terminator.
 func (term *TermCatchSwitch) Succs() []*Block {
-	// Cache successors if not present.
-	if term.Successors == nil {
-		// convert Handlers slice to []*ir.Block.
-		for _, handler := range term.Handlers {
-			term.Successors = append(term.Successors, handler.(*Block))
-		}
-		if defaultUnwindTarget, ok := term.DefaultUnwindTarget.(*Block); ok {
-			term.Successors = append(term.Successors, defaultUnwindTarget)
-		}
+	// Note, the successors are recomputed on each call, since the targets may
+	// have been updated through Operands.
+	//
+	// convert Handlers slice to []*ir.Block.
+	var succs []*Block
+	for _, handler := range term.Handlers {
+		succs = append(succs, handler.(*Block))
 	}
+	if defaultUnwindTarget, ok := term.DefaultUnwindTarget.(*Block); ok {
+		succs = append(succs, defaultUnwindTarget)
+	}
+	updateSuccs(&term.Successors, succs)
 	return term.Successors
 }
 
@@ -866,10 +866,9 @@ func NewCatchRet(catchPad *InstCatchPad, target *Block) *TermCatchRet {
 
 // Succs returns the successor basic blocks of the terminator.
 func (term *TermCatchRet) Succs() []*Block {
-	// Cache successors if not present.
-	if term.Successors == nil {
-		term.Successors = []*Block{term.Target.(*Block)}
-	}
+	// Note, the successors are recomputed on each call, since the targets may
+	// have been updated through Operands.
+	updateSuccs(&term.Successors, []*Block{term.Target.(*Block)})
 	return term.Successors
 }
 
@@ -927,13 +926,12 @@ func NewCleanupRet(cleanupPad *InstCleanupPad, unwindTarget *Block) *TermCleanup
 
 // Succs returns the successor basic blocks of the terminator.
 func (term *TermCleanupRet) Succs() []*Block {
-	// Cache successors if not present.
-	if term.Successors == nil {
-		if unwindTarget, ok := term.UnwindTarget.(*Block); ok {
-			term.Successors = []*Block{unwindTarget}
-		} else {
-			term.Successors = []*Block{}
-		}
+	// Note, the successors are recomputed on each call, since the target may
+	// have been updated through Operands.
+	if unwindTarget, ok := term.UnwindTarget.(*Block); ok {
+		updateSuccs(&term.Successors, []*Block{unwindTarget})
+	} else {
+		updateSuccs(&term.Successors, []*Block{})
 	}
 	return term.Successors
 }
@@ -998,4 +996,25 @@ func (term *TermUnreachable) LLString() string {
 		fmt.Fprintf(buf, ", %s", md)
 	}
 	return buf.String()
+}
+
+// ### [ Helper functions ] ####################################################
+
+// updateSuccs replaces the cached successors with succs if they differ. The
+// cache is only written when the successors have changed, so that concurrent
+// readers of an unmodified terminator do not race.
+func updateSuccs(cache *[]*Block, succs []*Block) {
+	if *cache != nil && len(*cache) == len(succs) {
+		same := true
+		for i := range succs {
+			if (*cache)[i] != succs[i] {
+				same = false
+				break
+			}
+		}
+		if same {
+			return
+		}
+	}
+	*cache = succs
 }
